@@ -80,7 +80,7 @@ def body(case, env):
         try: corrupt.apply_summary(img, [(0, case['seed'] % 5, 3, 5, False), (2, case['seed'] % 3, 0, 1, False)])
         except Exception: pass
     len0 = os.path.getsize(img)
-    snaps = [sha_prefix(img, len0)]; undos = []; done = []; shared = mode == 'shared-file'; mover = False
+    snaps = [sha_prefix(img, len0)]; undos = []; done = []; shared = mode == 'shared-file'; mover = False; failed_run_on_shared_file = False
     orig = os.path.join(d, 'orig.img'); shutil.copyfile(img, orig); bsizes = {cfg['bs']}
     for k, (name, v) in enumerate(steps):
         if name == 'undo-redo':
@@ -119,6 +119,7 @@ def body(case, env):
             return (dict(kind='recording-run-wrote-no-undo-file', cfg=case['cfg'], mode=mode, steps=done + ['%s [%d] -> rc %s' % (name, v, r.rc)], out=r.out[-300:]), fp, True, None, classes)
         elif r.rc not in ok_rc or not os.path.exists(undo):
             classes.append('step-refused')        # the tool refused or failed: not a run that finished normally, nothing recorded that we rely on
+            if shared and os.path.exists(undo) and r.rc not in ok_rc: failed_run_on_shared_file = True
             if sha_prefix(img, len0) != snaps[-1]:
                 shutil.copyfile(prev, img); classes.append('refused-step-had-modified-device(rolled back by the harness)')
             if not shared and os.path.exists(undo): os.unlink(undo)
@@ -139,7 +140,17 @@ def body(case, env):
                 classes.append('noop-step-undo-file-rejected'); return (None, fp, False, None, classes)
             if r.rc != 0: return (dict(base, kind='e2undo-failed', rc=r.rc, out=r.out[-400:]), fp, True, None, classes)
             if sha_prefix(img, len0) != snaps[0]:
-                return (dict(base, kind='undo-does-not-restore', differing_blocks=tool.changed_blocks(orig, img, cfg['bs'])[:12]), fp, True, None, classes)
+                df = tool.changed_blocks(orig, img, cfg['bs'])
+                if failed_run_on_shared_file and df == [1024 // cfg['bs']]:
+                    # a run that exits with an error leaves through exit() without closing the channel: the undo file is then marked unfinished (a run that ended abnormally),
+                    # and e2undo restores every block and additionally marks the filesystem as needing a check - the second clause of the property
+                    with open(orig, 'rb') as f: f.seek(1024); a = bytearray(f.read(1024))
+                    with open(img, 'rb') as f: f.seek(1024); b = bytearray(f.read(1024))
+                    valid_cleared = not (struct.unpack_from('<H', b, 0x3a)[0] & 1)
+                    for o_, n_ in ((0x3a, 2), (0x3fc, 4)): a[o_:o_ + n_] = b[o_:o_ + n_] = bytes(n_)
+                    if a == b and valid_cleared:
+                        classes.append('shared-file-with-failed-run:restored-and-marked-for-check'); return (None, fp, True, dict(base, note='a failed run had appended to the file; everything restored, filesystem marked as needing a check'), classes)
+                return (dict(base, kind='undo-does-not-restore', differing_blocks=df[:12], failed_run_on_shared_file=failed_run_on_shared_file), fp, True, None, classes)
         else:
             for k in range(len(undos) - 1, -1, -1):
                 r = vrun.run([t.e2undo, undos[k], img], merge=True, cpu=300)
